@@ -3,7 +3,8 @@
   Property theorems only.  Quantifiers: all parameter tuples, all 64-bit word streams, all modes.
   Sums are stated under the explicit guard `NoOverflow`; without it the wrapped sum is what is returned.
 -/
-import DS.Proofs.DiceLemmas
+import DS.Proofs.CocLemmas
+import DS.Proofs.PoolLemmas
 
 namespace DS.Props.C04
 open DS.Roll DS.Rng DS.Proofs
@@ -185,6 +186,69 @@ theorem fate_die_range (ws : List Nat) (hws : Words64 ws) (r : Int) (rest : List
 /-- value of a percentile roll with tens digit `d` (10 counts as digit 0) and units `u`: 00+0 is 100 -/
 def cocValue (d u : Int) : Int := if d % 10 == 0 && u == 0 then 100 else (d % 10) * 10 + u
 
+/-- **The CoC bonus / penalty rule.**  `rollCoC` (a transcription of RollCoC: one d100, `diceNum` extra tens dice, and the
+    code's bookkeeping of least die / greatest die / "a 10 was shown") returns, for every stream, mode and number of dice:
+    with the d100 showing `d100` (1..100) and the extra tens dice showing `dice` (each 1..10, a 10 standing for the digit 0),
+    the LEAST (bonus) or GREATEST (penalty) of the percentile values `pct t (d100 % 10)` over the candidate tens digits
+    `t` — the d100's own and each extra die's — where tens digit 0 with units digit 0 reads 100.
+    The shown text lists the d100 and the extra dice in rolling order. -/
+theorem coc_rule (isBonus : Bool) (diceNum mode : Int) (ws : List Nat) (hws : Words64 ws)
+    (v : Int) (t : String) (rest : List Nat)
+    (h : rollCoC isBonus diceNum mode ws = some ((v, t), rest)) :
+    ∃ (d100 : Int) (dice : List Int), 1 ≤ d100 ∧ d100 ≤ 100 ∧ dice.length = diceNum.toNat ∧ (∀ d ∈ dice, 1 ≤ d ∧ d ≤ 10) ∧
+      v = (if isBonus
+            then dice.foldl (fun v n => imin v (pct (cocDigit n) (d100 % 10))) (pct (d100 / 10 % 10) (d100 % 10))
+            else dice.foldl (fun v n => imax v (pct (cocDigit n) (d100 % 10))) (pct (d100 / 10 % 10) (d100 % 10))) ∧
+      t = "(D100=" ++ toString d100 ++ (if isBonus then ",奖励" else ",惩罚") ++ joinWith " " (dice.map cocShow) ++ ")" := by
+  unfold rollCoC at h
+  split at h
+  · simp at h
+  · rename_i d100 ws1 hr
+    obtain ⟨h1, h100, hws1⟩ := roll_range_any 100 (by decide) (by decide) mode ws hws d100 ws1 hr
+    have etd : Int.tdiv d100 10 = d100 / 10 := Int.tdiv_eq_ediv_of_nonneg (by omega)
+    have etm : Int.tmod d100 10 = d100 % 10 := Int.tmod_eq_emod_of_nonneg (by omega)
+    simp only [etd, etm] at h
+    split at h
+    · simp at h
+    · rename_i ts mn mx e ws2 hl
+      obtain ⟨dice, hlen, hrange, rfl, hf, _⟩ := cocLoop_fold mode _ _ _ _ ws1 hws1 _ _ _ _ _ hl
+      have hmn : mn = (cocFold dice (d100 / 10) (d100 / 10) false).1 := by rw [← hf]
+      have hmx : mx = (cocFold dice (d100 / 10) (d100 / 10) false).2.1 := by rw [← hf]
+      have he : e = (cocFold dice (d100 / 10) (d100 / 10) false).2.2 := by rw [← hf]
+      have hu0 : 0 ≤ d100 % 10 := by omega
+      have hu9 : d100 % 10 ≤ 9 := by omega
+      have hbase : pct (d100 / 10 % 10) (d100 % 10) = d100 / 10 * 10 + d100 % 10 := by
+        unfold pct
+        by_cases h0 : d100 / 10 % 10 = 0
+        · by_cases hu : d100 % 10 = 0
+          · simp [h0, hu]; omega
+          · simp [h0, hu]; omega
+        · have : (d100 / 10 % 10 == 0) = false := by simp [h0]
+          simp [this]; omega
+      refine ⟨d100, dice, h1, h100, hlen, hrange, ?_⟩
+      cases isBonus
+      · simp only [Bool.false_eq_true, if_false] at h ⊢
+        simp at h
+        obtain ⟨⟨rfl, rfl⟩, _⟩ := h
+        refine ⟨?_, by simp [String.append_assoc]⟩
+        have := penalty_fold (d100 % 10) hu0 hu9 dice hrange (d100 / 10) (d100 / 10) false (by omega) (by omega) (by omega)
+        rw [← hmx, ← he] at this
+        rw [hbase]
+        simpa [penaltyVal] using this
+      · simp only [if_true] at h ⊢
+        simp at h
+        obtain ⟨⟨rfl, rfl⟩, _⟩ := h
+        refine ⟨?_, by simp [String.append_assoc]⟩
+        have := bonus_fold (d100 % 10) hu0 hu9 dice hrange (d100 / 10) (d100 / 10) false (by omega) (by omega)
+        rw [← hmn, ← he] at this
+        rw [hbase]
+        simpa [bonusVal] using this
+
+/-- the rule in the usual words, for one bonus die: the better (lower) of the two percentile readings -/
+theorem coc_one_bonus (d100 n : Int) :
+    [n].foldl (fun v n => imin v (pct (cocDigit n) (d100 % 10))) (pct (d100 / 10 % 10) (d100 % 10)) =
+      imin (pct (d100 / 10 % 10) (d100 % 10)) (pct (cocDigit n) (d100 % 10)) := rfl
+
 /-! ### WoD / Double Cross rounds -/
 
 /-- a Double Cross round scores 10 if any die reached the critical value, else its highest die
@@ -230,12 +294,82 @@ theorem dc_round_value (addLine points mode : Int) :
             simp only [List.any_cons, hc, decide_false, Bool.false_or]
             simpa using hany
 
+/-- **The WoD pool rule, end to end.**  Whenever RollWoD completes (any stream, any mode, with or without an operation
+    budget), the dice it rolled form a chain of rounds — `pool` dice first, then as many dice as the previous round had
+    dice at or above the add line (`addLine = 0` switches adding off), ending with the first round that adds none — and
+    the result is the number of successes (dice ≥ / ≤ the threshold) over ALL dice of ALL rounds; `rounds` is the number
+    of rounds; the dice total is the pool plus every added die (int64-wrapped). -/
+theorem wod_rule (fuel : Nat) (addLine pool points threshold : Int) (isGE : Bool) (mode : Int) (ws : List Nat)
+    (budget : Option Int) (r : PoolResult) (ws' : List Nat)
+    (h : rollWoD fuel addLine pool points threshold isGE mode ws budget = some (some (r, ws'))) (hov : r.over = false) :
+    ∃ rounds : List (List Int), Chain (wodAdd addLine) pool rounds ∧
+      r.value = total (cnt (wodSucc threshold isGE)) rounds ∧
+      r.rounds = (rounds.length : Int) ∧
+      r.allRoll = rounds.foldl (fun acc rd => wrap64 (acc + cnt (wodAdd addLine) rd)) pool := by
+  simp only [rollWoD] at h
+  split at h
+  · simp at h
+  · simp at h
+  · simp only [Option.some.injEq, Prod.mk.injEq] at h
+    rw [← h.1] at hov; simp at hov
+  · rename_i succ allRoll addTimes details charged ws1 hl
+    simp only [Option.some.injEq, Prod.mk.injEq] at h
+    obtain ⟨rounds, hch, rfl, rfl, rfl⟩ := wodLoop_rule _ _ _ _ _ _ _ _ _ _ _ _ _ _ _ _ _ _ _ _ _ hl
+    rw [← h.1]
+    exact ⟨rounds, hch, by simp, by simp, rfl⟩
+
+/-- **The Double Cross rule, end to end.**  A chain of rounds as for WoD (a die is critical when it reaches the critical
+    value); the result is the sum over rounds of: 10 if the round had a critical die, else its highest die. -/
+theorem dc_rule (fuel : Nat) (addLine pool points : Int) (mode : Int) (ws : List Nat)
+    (budget : Option Int) (r : PoolResult) (ws' : List Nat)
+    (h : rollDC fuel addLine pool points mode ws budget = some (some (r, ws'))) (hov : r.over = false) :
+    ∃ rounds : List (List Int), Chain (dcAdd addLine) pool rounds ∧
+      r.value = rounds.foldl (fun acc rd => wrap64 (acc + dcValue addLine rd)) 0 ∧
+      r.rounds = (rounds.length : Int) ∧
+      r.allRoll = rounds.foldl (fun acc rd => wrap64 (acc + cnt (dcAdd addLine) rd)) pool := by
+  simp only [rollDC] at h
+  split at h
+  · simp at h
+  · simp at h
+  · simp only [Option.some.injEq, Prod.mk.injEq] at h
+    rw [← h.1] at hov; simp at hov
+  · rename_i result allRoll addTimes details charged ws1 hl
+    simp only [Option.some.injEq, Prod.mk.injEq] at h
+    obtain ⟨rounds, hch, rfl, rfl, rfl⟩ := dcLoop_rule _ _ _ _ _ _ _ _ _ _ _ _ _ _ _ _ _ _ _ hl
+    rw [← h.1]
+    exact ⟨rounds, hch, rfl, by simp, rfl⟩
+
+/-- the round value of `dc_rule` is the rule stated above -/
+theorem dcValue_eq (addLine : Int) (dice : List Int) : dcValue addLine dice = dcRoundValue addLine dice := by
+  unfold dcValue dcRoundValue cnt dcAdd
+  by_cases hany : dice.any (fun d => decide (d ≥ addLine)) = true
+  · rw [if_pos hany, if_pos]
+    simp only [List.any_eq_true] at hany
+    obtain ⟨x, hx, hp⟩ := hany
+    have : 0 < (dice.filter (fun d => decide (d ≥ addLine))).length :=
+      List.length_pos_of_mem (List.mem_filter.mpr ⟨hx, hp⟩)
+    omega
+  · rw [if_neg hany, if_neg]
+    have : dice.filter (fun d => decide (d ≥ addLine)) = [] := by
+      rw [List.filter_eq_nil_iff]
+      intro a ha hp
+      exact hany (List.any_eq_true.mpr ⟨a, ha, hp⟩)
+    rw [this]; simp
+
 /- Non-vacuity -/
 example : (rollCommon 3 6 none none 0 0 0 0 [7, 8, 9]).map (fun p => (p.1.nums, p.1.num, p.1.text)) =
     some ([2, 3, 4], 9, "2+3+4") := by decide
 example : Words64 [7, 8, 9] ∧ LegalSides 6 := by
   refine ⟨?_, by unfold LegalSides maxInt64; omega⟩
   intro w hw; simp at hw; rcases hw with rfl | rfl | rfl <;> decide
+-- D100=47 with bonus dice showing 2 and 10(→digit 0): candidates 47, 27, 07 → 7;  D100=40, penalty 10 → 00+0 = 100
+example : [2, 10].foldl (fun v n => imin v (pct (cocDigit n) (47 % 10))) (pct (47 / 10 % 10) (47 % 10)) = 7 := by decide
+example : [10].foldl (fun v n => imax v (pct (cocDigit n) (40 % 10))) (pct (40 / 10 % 10) (40 % 10)) = 100 := by decide
+example : [10].foldl (fun v n => imin v (pct (cocDigit n) (40 % 10))) (pct (40 / 10 % 10) (40 % 10)) = 40 := by decide
+example : (rollCoC true 2 1 []).map (·.1) = some (100, "(D100=100,奖励0 0)") := by decide
+example : Chain (wodAdd 10) 3 [[10, 4, 10], [8, 10], [2]] :=
+  .more _ _ _ rfl (by decide) (.more _ _ _ rfl (by decide) (.last _ _ rfl (by decide)))
+example : total (cnt (wodSucc 8 true)) [[10, 4, 10], [8, 10], [2]] = 4 := by decide
 example : dcRoundValue 18 [18, 20, 13] = 10 := by decide
 example : dcRoundValue 18 [7, 17, 13] = 17 := by decide
 
